@@ -441,6 +441,7 @@ func (p *Program) newInterpreter(sv *solver) *interpreter {
 		limits:     p.cfg.Limits,
 		cfg:        p.cfg,
 		poisoned:   map[*ssa.Global]string{},
+		initStarted: map[*ssa.Function]bool{},
 		harnessState: map[string]value{},
 	}
 	if p.cfg.Trace {
@@ -486,6 +487,10 @@ func (i *interpreter) callPkgInit(fn *ssa.Function) {
 	if fn == nil {
 		return
 	}
+	if i.initStarted[fn] {
+		return
+	}
+	i.initStarted[fn] = true
 	pkgPath := fn.Pkg.Pkg.Path()
 	if skipInit(pkgPath) {
 		i.poisonPackage(fn, "init of "+pkgPath+" skipped")
